@@ -369,6 +369,10 @@ def run_chunk(cases):
 def with_names(rng, ranges):
     names = list(range(len(ranges)))
     rng.shuffle(names)
+    if rng.random() < 0.25:
+        # duplicate names: the greedy order is (start, -end, creation index) since /repo 38401a6, names only
+        # matter through LiveRange.__lt__ when two current allocations have equal addresses (zero sizes)
+        names = [rng.randrange(max(1, len(ranges) // 2)) for _ in ranges]
     return [tuple(r) + (names[i],) for i, r in enumerate(ranges)]
 
 
@@ -719,7 +723,7 @@ def main():
         "padded_total_cases": len(padded_hits),
         "hillclimb_exception_in_domain": len(hc_crashes),
     }, assumptions=[
-        "live-range names are distinct (equal names make the greedy order depend on set iteration order = object hashes; C14 territory)",
+        "Greedy processes live ranges in (start, -end, creation index) order (repo commit 38401a6); names may repeat (25 % of the cases)",
         "sizes >= 1, start <= end, alignments >= 1 inside the judged domain (storage_size() never returns 0); malformed inputs are compared "
         "model-vs-code only",
         "LinearAlloc: the requested alignment is its alloc_granularity argument; ranges sharing a weight-compression config / LUT "
